@@ -1,5 +1,6 @@
 import Mdns.Driver.C16
 import Mdns.Driver.Wire
+import Mdns.Driver.C02
 /-
   Line-protocol driver (`lean_exe mdnsmodel`).
   stdin: op lines, each followed by the implementation's observation line `= ...`.
@@ -13,11 +14,13 @@ def splitToks (line : String) : List String :=
 def dispatchExec (op : String) (ts impl : List String) : Option String :=
   if op.startsWith "txt-" then Driver.C16.exec op ts impl
   else if op == "decode" then Driver.Wire.exec op ts
+  else if op == "encode" || op == "escape" || op == "parse-escaped" then Driver.C02.exec op ts
   else none
 
 def dispatchMon (op : String) (ts impl : List String) : Option String :=
   if op.startsWith "txt-" then Driver.C16.monitor op ts impl
   else if op == "decode" then Driver.Wire.monitor op ts impl
+  else if op == "encode" || op == "escape" || op == "parse-escaped" then Driver.C02.monitor op ts impl
   else some "unknown-op"
 
 partial def loop (h : IO.FS.Stream) (out : IO.FS.Stream) (cur : Option (List String)) : IO Unit := do
